@@ -19,6 +19,11 @@
 (*                      i-th list it was given                                        *)
 (*   SetSuppress(b)     Model.TimeSeriesSupressTimeZero = b                           *)
 (*   SetCutoff(c)       Model.TimeSeriesCutoff = c              c = NoCut: None       *)
+(*   SetMaxTime(n)      Model.MaxTime = n.  The horizon of the *next* run; it says nothing     *)
+(*                      about how long the stored series are (step group: one point    *)
+(*                      per sweep; initial group: its own horizon; main group after    *)
+(*                      MaxTime was changed), so no retrieval may depend on it: GetOp  *)
+(*                      does not take it.                                              *)
 (*   RenderTable(grp, fmt)  EquationSolver.GenerateCSVtext(fmt) for "main", otherwise *)
 (*                      <holder of grp>.GenerateCSVtext(fmt)                          *)
 (*   BaseCsv            BaseSolver.CreateCsvString()                                  *)
@@ -54,6 +59,7 @@ CONSTANTS
     Fmts,           \* format strings for RenderTable
     MaxHist,        \* bound on the number of calls in a history
     ExtNames,       \* series that Extend may lengthen ({} = the store keeps its shape)
+    MaxTimes,       \* values SetMaxTime may assign ({} = Model.MaxTime keeps its default)
     AsFound_AliasWhenNoCutoff,
     AsFound_PopOnStore,
     AsFound_BaseCsvDropsT
@@ -61,6 +67,7 @@ CONSTANTS
 NoCut == -1
 Sentinel == 99
 ExtVal == 7
+DefaultMaxTime == 100       \* Model().MaxTime
 
 ----------------------------------------------------------------------------
 (* what the property says a retrieval returns *)
@@ -139,22 +146,23 @@ VARIABLES store,     \* group -> holder: EquationSolver.TimeSeries / .TimeSeries
           last,      \* what the last call returned
           gets,      \* retrievals so far: [key, src, out]
           texts,     \* renderings so far: [key, src, out]
+          maxtime,   \* Model.MaxTime
           hist,      \* the calls made (history, for emission)
           vl0        \* the VariableList the BaseSolver was constructed with (history)
 
-vars == << store, held, cutoff, suppress, varlist, last, gets, texts, hist, vl0 >>
+vars == << store, held, cutoff, suppress, varlist, last, gets, texts, maxtime, hist, vl0 >>
 
 NoLast == [ev |-> "", ok |-> TRUE, found |-> TRUE, c |-> NoCut, sup |-> FALSE, pre |-> << >>, vals |-> << >>]
 Call(ev, grp, name, c, i, op, b, fmt) ==
     [ev |-> ev, grp |-> grp, name |-> name, c |-> c, i |-> i, op |-> op, b |-> b, fmt |-> fmt]
 
 (* (re)start with a given store and variable list; used by Init and by the trace spec *)
-Reset(st, vl) ==
-    /\ store' = st /\ held' = << >> /\ cutoff' = NoCut /\ suppress' = FALSE
+Reset(st, vl, mt) ==
+    /\ store' = st /\ held' = << >> /\ cutoff' = NoCut /\ suppress' = FALSE /\ maxtime' = mt
     /\ varlist' = vl /\ last' = NoLast /\ gets' = {} /\ texts' = {} /\ hist' = << >>
     /\ vl0' = vl
 
-Init == /\ store = InitStore /\ held = << >> /\ cutoff = NoCut /\ suppress = FALSE
+Init == /\ store = InitStore /\ held = << >> /\ cutoff = NoCut /\ suppress = FALSE /\ maxtime = DefaultMaxTime
         /\ varlist \in VarLists /\ last = NoLast /\ gets = {} /\ texts = {} /\ hist = << >>
         /\ vl0 = varlist
 
@@ -168,7 +176,7 @@ Get(grp, name, carg) ==
     /\ gets' = gets \cup { [key |-> [grp |-> grp, name |-> name, c |-> r.c, sup |-> suppress], src |-> store,
                             out |-> [ok |-> r.ok, err |-> r.err, vals |-> r.vals]] }
     /\ hist' = Append(hist, Call("Get", grp, name, carg, 0, "", FALSE, ""))
-    /\ UNCHANGED << cutoff, suppress, varlist, texts, vl0 >>
+    /\ UNCHANGED << cutoff, suppress, varlist, texts, maxtime, vl0 >>
 
 MutateHeld(i, op) ==
     LET r == MutateOp(store, held, i, op) IN
@@ -178,28 +186,28 @@ MutateHeld(i, op) ==
     /\ held' = r.held
     /\ last' = [NoLast EXCEPT !.ev = "MutateHeld"]
     /\ hist' = Append(hist, Call("MutateHeld", "", "", NoCut, i, op, FALSE, ""))
-    /\ UNCHANGED << cutoff, suppress, varlist, gets, texts, vl0 >>
+    /\ UNCHANGED << cutoff, suppress, varlist, gets, texts, maxtime, vl0 >>
 
 SetSuppress(b) ==
     /\ Len(hist) < MaxHist
     /\ suppress' = b
     /\ last' = [NoLast EXCEPT !.ev = "SetSuppress"]
     /\ hist' = Append(hist, Call("SetSuppress", "", "", NoCut, 0, "", b, ""))
-    /\ UNCHANGED << store, held, cutoff, varlist, gets, texts, vl0 >>
+    /\ UNCHANGED << store, held, cutoff, varlist, gets, texts, maxtime, vl0 >>
 
 SetCutoff(c) ==
     /\ Len(hist) < MaxHist
     /\ cutoff' = c
     /\ last' = [NoLast EXCEPT !.ev = "SetCutoff"]
     /\ hist' = Append(hist, Call("SetCutoff", "", "", c, 0, "", FALSE, ""))
-    /\ UNCHANGED << store, held, suppress, varlist, gets, texts, vl0 >>
+    /\ UNCHANGED << store, held, suppress, varlist, gets, texts, maxtime, vl0 >>
 
 RenderTable(grp, fmt) ==
     /\ Len(hist) < MaxHist
     /\ texts' = texts \cup { [key |-> grp \o ":" \o fmt, src |-> store[grp], out |-> RenderOp(store[grp], fmt)] }
     /\ last' = [NoLast EXCEPT !.ev = "RenderTable"]
     /\ hist' = Append(hist, Call("RenderTable", grp, "", NoCut, 0, "", FALSE, fmt))
-    /\ UNCHANGED << store, held, cutoff, suppress, varlist, gets, vl0 >>
+    /\ UNCHANGED << store, held, cutoff, suppress, varlist, gets, maxtime, vl0 >>
 
 BaseCsv ==
     LET r == BaseCsvOp(varlist) IN
@@ -208,14 +216,21 @@ BaseCsv ==
     /\ texts' = texts \cup { [key |-> "base", src |-> BaseStore, out |-> r.text] }
     /\ last' = [NoLast EXCEPT !.ev = "BaseCsv"]
     /\ hist' = Append(hist, Call("BaseCsv", "", "", NoCut, 0, "", FALSE, ""))
-    /\ UNCHANGED << store, held, cutoff, suppress, gets, vl0 >>
+    /\ UNCHANGED << store, held, cutoff, suppress, gets, maxtime, vl0 >>
+
+SetMaxTime(n) ==
+    /\ Len(hist) < MaxHist
+    /\ maxtime' = n
+    /\ last' = [NoLast EXCEPT !.ev = "SetMaxTime"]
+    /\ hist' = Append(hist, Call("SetMaxTime", "", "", n, 0, "", FALSE, ""))
+    /\ UNCHANGED << store, held, cutoff, suppress, varlist, gets, texts, vl0 >>
 
 Extend(name) ==
     /\ Len(hist) < MaxHist
     /\ store' = ExtendOp(store, name)
     /\ last' = [NoLast EXCEPT !.ev = "Extend"]
     /\ hist' = Append(hist, Call("Extend", "main", name, NoCut, 0, "", FALSE, ""))
-    /\ UNCHANGED << held, cutoff, suppress, varlist, gets, texts, vl0 >>
+    /\ UNCHANGED << held, cutoff, suppress, varlist, gets, texts, maxtime, vl0 >>
 
 ReadStep ==
     \/ \E a \in Asks, c \in CutArgs : Get(a[1], a[2], c)
@@ -232,6 +247,7 @@ Next == \/ ReadStep
         \/ \E b \in BOOLEAN : b # suppress /\ SetSuppress(b)
         \/ \E c \in CutArgs : c # cutoff /\ SetCutoff(c)
         \/ \E n \in ExtNames : Extend(n)
+        \/ \E n \in MaxTimes : n # maxtime /\ SetMaxTime(n)
 
 Spec == Init /\ [][Next]_vars
 
